@@ -368,10 +368,11 @@ int scan_from_with(var input, int pos, const char* fmt, var args) {
     while (*fmt isnt '\0' and *fmt isnt '%') { fmt++; }
     
     if (start isnt fmt) {  
+      int off = (int)(fmt - start);
       memcpy(fmt_buf, start, fmt - start);
-      fmt_buf[fmt - start] = '\0';
-      format_from(input, pos, fmt_buf);
-      pos += (int)(fmt - start);
+      strcpy(fmt_buf + (fmt - start), "%n");
+      format_from(input, pos, fmt_buf, &off);
+      pos += off;
       continue;
     }
     
